@@ -160,4 +160,165 @@ theorem noise_step {s : Nat} {c : Key} {cur cur' : Option Val} {st t : St} {i : 
   | lkeys hth' hw hp hl' => rw [hth] at hth'; cases hth'; rw [hp] at hn; simp [isNoise, noiseOK] at hn
   | commit hth' hw hp hl' hh => rw [hth] at hth'; cases hth'; rw [hp] at hn; simp [isNoise, noiseOK] at hn
 
+theorem dataGet_lt {ss : Scopes} {s : Nat} {k : Key} {x : Val} (h : dataGet ss s k = some x) : s < ss.length := by
+  unfold dataGet at h
+  cases hs : ss[s]? with
+  | none => simp [hs] at h
+  | some sc => rcases List.getElem?_eq_some_iff.mp hs with ⟨h', _⟩; exact h'
+
+theorem readLevel_hit {ss : Scopes} {s : Nat} {k : Key} {x : Val} (h : dataGet ss s k = some x) :
+    readLevel ss s k = .hit x := by
+  simp [readLevel, h]
+
+/-- a step of an incrementing thread -/
+theorem inc_step {s : Nat} {c : Key} {v : Nat} {st t : St} {i : Nat} {th : Thread}
+    (hph : CPhase s c (some (some v)) true th) (hv : dataGet st.scopes s c = some (some v))
+    (hth : st.threads[i]? = some th) (hs : step st i = some t) :
+    ∃ th' v', t.threads = st.threads.set i th' ∧ dataGet t.scopes s c = some (some v') ∧
+      (v' ≠ v → s ∈ th.lks) ∧ CPhase s c (some (some v')) true th' ∧
+      v' + lincs th'.prog = v + lincs th.prog := by
+  unfold step at hs
+  simp only [hth] at hs
+  cases hph with
+  | idle m hp hl hw =>
+    cases m with
+    | zero => simp [hw, hp, incProg] at hs
+    | succ m =>
+      simp only [hw, hp, incProg_succ, instrStep] at hs
+      split at hs
+      · simp only [Option.some.injEq] at hs
+        subst hs
+        refine ⟨_, v, rfl, ?_, fun h => absurd rfl h, .locked m rfl (by simp [hl]) rfl, ?_⟩
+        · simp [setThread, dataGet_setHeld, hv]
+        · simp [hp, incProg_succ, lincs]
+      · cases hs
+  | locked m hp hl hw =>
+    simp only [hw, hp, instrStep, hl, readLevel_hit hv, Option.some.injEq] at hs
+    subst hs
+    exact ⟨_, v, rfl, hv, fun h => absurd rfl h, .read m rfl rfl rfl rfl, by simp [hp, lincs]⟩
+  | read m hp hl hw hr =>
+    simp only [hw, hp, instrStep, hl, Option.some.injEq] at hs
+    subst hs
+    have hreg : th.reg = some v := by simpa using hr.symm
+    refine ⟨_, v + 1, rfl, ?_, fun _ => by simp [hl], .written m rfl rfl rfl, ?_⟩
+    · simp [setThread, hreg, dataGet_dataSet_same c _ (dataGet_lt hv)]
+    · simp [hp, lincs]; omega
+  | written m hp hl hw =>
+    simp only [hw, hp, instrStep, hl] at hs
+    split at hs
+    · simp only [Option.some.injEq] at hs
+      subst hs
+      refine ⟨_, v, rfl, ?_, fun h => absurd rfl h, .idle m rfl rfl rfl, ?_⟩
+      · simp [setThread, dataGet_setHeld, hv]
+      · simp [hp, lincs]
+    · cases hs
+
+theorem CInv_step {s : Nat} {c : Key} {n total : Nat} {st t : St} {i : Nat}
+    (hinv : CInv s c n total st) (hs : step st i = some t) : CInv s c n total t := by
+  have hrel := step_rel hs
+  have hL := LockInv_step hinv.lock hrel
+  rcases hinv.count with ⟨v, hv, _⟩
+  cases hth : st.threads[i]? with
+  | none => simp [step, hth] at hs
+  | some th =>
+    have hph := hinv.phase i th hth
+    rw [hv] at hph
+    by_cases hi : i < n
+    · simp only [hi, decide_true] at hph
+      rcases inc_step hph hv hth hs with ⟨th', v', ht, hv', hown, hph', hcount⟩
+      refine CInv_rebuild hinv hL hth ht hv hv' ?_ (by simpa [hi] using hph') hcount
+      intro j x hji hj hmem
+      apply Classical.byContradiction
+      intro hne
+      exact hji (hinv.lock.uniq j i x th s hj hth hmem (hown hne))
+    · simp only [hi, decide_false] at hph
+      rcases noise_step (cur' := some (some v)) hph hth hrel with ⟨th', ht, hd, hph', hl⟩
+      refine CInv_rebuild hinv hL hth ht hv (by rw [hd, hv]) (fun _ _ _ _ _ => rfl) (by simpa [hi] using hph') ?_
+      omega
+
+/-! ### initial state and the final count -/
+
+theorem initSt_lks (ss : Scopes) (n : Nat) (prog : List Instr) (others : List (List Instr)) (fresh : Nat) :
+    ∀ th ∈ (initSt ss n prog others fresh).threads, th.lks = [] := by
+  intro th hth
+  simp only [initSt, List.mem_append, List.mem_replicate, List.mem_map] at hth
+  rcases hth with ⟨_, rfl⟩ | ⟨p, _, rfl⟩ <;> rfl
+
+theorem initSt_thread {ss : Scopes} {n : Nat} {prog : List Instr} {others : List (List Instr)} {fresh i : Nat}
+    {th : Thread} (h : (initSt ss n prog others fresh).threads[i]? = some th) :
+    (i < n ∧ th = Thread.start prog) ∨ (¬ i < n ∧ ∃ p ∈ others, th = Thread.start p) := by
+  simp only [initSt] at h
+  by_cases hi : i < n
+  · rw [List.getElem?_append_left (by simpa using hi), List.getElem?_replicate] at h
+    simp [hi] at h
+    exact Or.inl ⟨hi, h.symm⟩
+  · rw [List.getElem?_append_right (by simpa using Nat.le_of_not_lt hi)] at h
+    have hm : th ∈ others.map Thread.start := List.mem_iff_getElem?.mpr ⟨_, h⟩
+    rcases List.mem_map.mp hm with ⟨p, hp, rfl⟩
+    exact Or.inr ⟨hi, p, hp, rfl⟩
+
+theorem pendTotal_append (a b : List Thread) : pendTotal (a ++ b) = pendTotal a + pendTotal b := by
+  simp [pendTotal, List.sum_append]
+
+theorem pendTotal_replicate (n : Nat) (th : Thread) : pendTotal (List.replicate n th) = n * lincs th.prog := by
+  induction n with
+  | zero => simp [pendTotal]
+  | succ n ih =>
+    simp only [List.replicate_succ]
+    have : pendTotal (th :: List.replicate n th) = lincs th.prog + pendTotal (List.replicate n th) := by
+      simp [pendTotal]
+    rw [this, ih, Nat.succ_mul]; omega
+
+theorem pendTotal_zero {ths : List Thread} (h : ∀ th ∈ ths, lincs th.prog = 0) : pendTotal ths = 0 := by
+  induction ths with
+  | nil => rfl
+  | cons a rest ih =>
+    have h1 := h a (by simp)
+    have h2 := ih (fun th hth => h th (by simp [hth]))
+    simp [pendTotal] at h2 ⊢
+    omega
+
+theorem CInv_init {ss : Scopes} {s : Nat} {c : Key} {v0 n k fresh : Nat} {others : List (List Instr)}
+    (hv : dataGet ss s c = some (some v0)) (hn : ∀ p ∈ others, isNoise s c p = true) :
+    CInv s c n (v0 + n * k) (initSt ss n (incProg s c k) others fresh) := by
+  refine ⟨LockInv_init (initSt_lks _ _ _ _ _), ?_, ?_⟩
+  · intro i th hth
+    rcases initSt_thread hth with ⟨hi, rfl⟩ | ⟨hi, p, hp, rfl⟩
+    · simp only [hi, decide_true]
+      exact .idle k rfl rfl rfl
+    · simp only [hi, decide_false]
+      exact .noise rfl (hn p hp)
+  · refine ⟨v0, hv, ?_⟩
+    simp only [initSt, pendTotal_append, pendTotal_replicate]
+    have : pendTotal (others.map Thread.start) = 0 := by
+      apply pendTotal_zero
+      intro th hth
+      rcases List.mem_map.mp hth with ⟨p, hp, rfl⟩
+      exact lincs_noise (hn p hp)
+    rw [this]
+    simp [Thread.start, lincs_incProg]
+
+theorem CInv_run {ss : Scopes} {s : Nat} {c : Key} {v0 n k fresh : Nat} {others : List (List Instr)}
+    (hv : dataGet ss s c = some (some v0)) (hn : ∀ p ∈ others, isNoise s c p = true) (sched : List Nat) :
+    CInv s c n (v0 + n * k) ((sys (initSt ss n (incProg s c k) others fresh)).run sched) :=
+  LTS.inv_run (sys _) (CInv s c n (v0 + n * k)) (CInv_init hv hn) (fun _ _ _ hinv hs => CInv_step hinv hs) sched
+
+/-- when the incrementing threads have finished, nothing is pending -/
+theorem CInv_final {s : Nat} {c : Key} {n total : Nat} {st : St} (hinv : CInv s c n total st)
+    (hdone : ∀ (i : Nat) (th : Thread), i < n → st.threads[i]? = some th → th.prog = []) :
+    dataGet st.scopes s c = some (some total) := by
+  rcases hinv.count with ⟨v, hv, hsum⟩
+  have : pendTotal st.threads = 0 := by
+    apply pendTotal_zero
+    intro th hth
+    rcases List.mem_iff_getElem?.mp hth with ⟨i, hi⟩
+    by_cases hin : i < n
+    · rw [hdone i th hin hi]; rfl
+    · have := hinv.phase i th hi
+      simp only [hin, decide_false] at this
+      cases this with
+      | noise hl hp => exact lincs_noise hp
+  rw [this] at hsum
+  rw [hv]; simp at hsum; rw [hsum]
+
 end Goat.DataScope
